@@ -122,8 +122,6 @@ def structured(rng, fam):
     if case["cplx"]:
         case["vim"] = dy(rng, n).tolist()
     fill_aux(rng, case)
-    if fam == "l1l2" and not np.any(np.asarray(case["v"])) and case["params"]["beta"] > 1 and not np.any(np.asarray(case.get("vim", [0]))):
-        case["v"][0] = 1.0  # v = 0 with beta > 1 is the recorded finding; it has its own witness
     case["stream"] = "structured"
     return case
 
@@ -238,8 +236,6 @@ def boundary(rng, fam):
             scale_to = lam * (0.75 if m == "tie" else 1.5)
         if m == "zero":
             re = np.zeros(n)
-            if beta > 1:
-                re[0] = lam  # v = 0 with beta > 1: separate witness
         else:
             re = np.clip(re, -1, 1) * min(scale_to, 1.0) * 0.5
             i = int(rng.integers(0, n))
